@@ -1,5 +1,6 @@
 CONSTANTS Clients = {1, 2, 3} Prios = {1, 2} FixTokenOwner = TRUE FixFlushClosed = TRUE FixRegrant = TRUE
   FixHdrLen = TRUE FixPartial = TRUE
+CONSTANT NsiValues <- OnlyOff
 SPECIFICATION CSpec
 INVARIANTS CTypeOK SingleOwner NoCrash OneHolder HolderIsOwner Released ListOK
 CHECK_DEADLOCK FALSE
